@@ -118,7 +118,7 @@ func main() {
 	caseList := flag.String("case", "0", "case index (vCase), or comma-separated list run sequentially")
 	flag.BoolVar(&verbose, "v", false, "verbose")
 	flag.BoolVar(&traceExec, "trace", false, "trace instructions")
-	flag.IntVar(&unwindCap, "unwind", 70, "loop unwinding cap")
+	flag.IntVar(&unwindCap, "unwind", 200000, "loop unwinding cap")
 	flag.Parse()
 	debug.SetGCPercent(400)
 	t0 := time.Now()
